@@ -87,8 +87,13 @@ func init() {
 			c.guards(enc, wr, ek+" :: write frame", 0, guardCmp("payload within maxMsgSizeBytes", `len\(.*Marshal\(&pv\)#0\)`, "<=", max))
 		}
 		// decoder
-		reads := w.callsMatching(dec, `^dec\.rd\.Read\(`)
-		c.Check(len(reads) == 3, dk+" :: reads crc, length, payload", w.pos(dec.Pos()), "three reads", fmt.Sprintf("%d reads", len(reads)))
+		// every field is read in full (F68: a reader may return fewer bytes than asked for without an error — a
+		// file does at its end — and the rest of the buffer stays zero: a torn record whose missing tail is zero
+		// bytes passed the checksum)
+		reads := w.callsMatching(dec, `^io\.ReadFull\(dec\.rd, `)
+		c.Check(len(reads) == 3, dk+" :: reads crc, length, payload", w.pos(dec.Pos()), "three reads, each io.ReadFull", fmt.Sprintf("%d full reads", len(reads)))
+		raw := w.callsMatching(dec, `^dec\.rd\.Read\(`)
+		c.Check(len(raw) == 0, dk+" :: no field is read with a single Read", w.pos(dec.Pos()), "io.ReadFull", fmt.Sprintf("%d single Read calls whose byte count decides nothing: a short read leaves the rest of the field zero", len(raw)))
 		beU := w.callsTo(dec, "encoding/binary#bigEndian.Uint32")
 		c.Check(len(beU) == 2 && len(w.callsTo(dec, "encoding/binary#littleEndian.Uint32")) == 0, dk+" :: crc and length decoded big endian", w.pos(dec.Pos()), "two BigEndian.Uint32", "byte order differs from the encoder")
 		// allocation of the payload buffer is bounded by the same constant
@@ -102,16 +107,16 @@ func init() {
 		for _, call := range w.callsTo(dec, "github.com/gogo/protobuf/proto#Unmarshal") {
 			c.guards(dec, call, dk+" :: unmarshal payload", 0,
 				guardCmp("CRC of the payload equals the stored CRC", `hash/crc32\.Checksum\(.*, consensus\.crc32c\)`, "==", `encoding/binary\.BigEndian\.Uint32\(.*\)`),
-				guardRe("payload read completely", `^nil\(dec\.rd\.Read\(make\(\[\]byte,.*\)\)#1\)$`))
+				guardRe("payload read completely", `^nil\(io\.ReadFull\(dec\.rd, make\(\[\]byte,.*\)\)#1\)$`))
 		}
 		c.Check(c.ge().ensures(dec, guardCallOK("payload decoded into a WAL message", "consensus#WALFromProto"), 2), dk+" ensures the message converted from proto", w.pos(dec.Pos()), "guarded", "Decode can succeed without converting the message")
 		c.Check(c.ge().ensures(dec, guardCmp("CRC matches", `hash/crc32\.Checksum\(.*\)`, "==", `.*Uint32\(.*\)`), 2), dk+" ensures the CRC matched", w.pos(dec.Pos()), "guarded", "Decode can return a record without a CRC match")
 		// a clean EOF only before the first byte of a frame; anything else is a corruption error
 		eofRet := 0
 		for _, lr := range leafErrReturns(dec) {
-			if strings.Contains(w.expr(lr.err), "dec.rd.Read(") {
+			if strings.Contains(w.expr(lr.err), "dec.rd.Read(") || strings.Contains(w.expr(lr.err), "io.ReadFull(dec.rd") {
 				eofRet++
-				c.guards(dec, lr.ret, dk+" :: pass EOF through", 0, guardRe("error is io.EOF", `^true\(errors\.Is\(dec\.rd\.Read\(.*\)#1, io\.EOF\)\)$`))
+				c.guards(dec, lr.ret, dk+" :: pass EOF through", 0, guardRe("error is io.EOF (ReadFull: no byte was read)", `^true\(errors\.Is\(io\.ReadFull\(dec\.rd, .*\)#1, io\.EOF\)\)$`))
 			}
 		}
 		c.Check(eofRet == 1, dk+" :: EOF is only reported at a frame boundary", w.pos(dec.Pos()), "single EOF pass-through (first read)", fmt.Sprintf("%d raw read-error returns", eofRet))
@@ -248,7 +253,8 @@ func init() {
 					}
 				}
 			}
-			c.Check(len(w.callsMatching(f, `^os\.Create\(dst\)$`)) == 1 && len(w.callsMatching(f, `^os\.Open\(src\)$`)) == 1, fk+" :: reads src, writes dst", w.pos(f.Pos()), "Open(src) / Create(dst)", "source/destination handling changed")
+			// (how dst is written — to a new file that is renamed over it — is C15.R13's subject)
+			c.Check(len(w.callsMatching(f, `^os\.Open\(src\)$`)) == 1 && (len(w.callsMatching(f, `^os\.Rename\(.*, dst\)$`)) == 1 || len(w.callsMatching(f, `^os\.Create\(dst\)$`)) == 1), fk+" :: reads src, writes dst", w.pos(f.Pos()), "Open(src) / result ends up as dst", "source/destination handling changed")
 		}
 		if f := c.fn("consensus", "State.OnStart"); f != nil {
 			fk := funcKey(f)
@@ -359,12 +365,18 @@ func init() {
 		leaves := leafErrReturns(f)
 		for _, lr := range leaves {
 			e := w.expr(lr.err)
-			if !regexp.MustCompile(`^dec\.rd\.Read\(.*\)#1$`).MatchString(e) {
-				continue
+			switch {
+			case regexp.MustCompile(`^io\.ReadFull\(dec\.rd, .*\)#1$`).MatchString(e):
+				// io.ReadFull answers io.EOF only if it read no byte (io.ErrUnexpectedEOF otherwise): the
+				// reader's error is handed back only where it is io.EOF
+				n++
+				c.guards(f, lr.ret, fk+" :: hand back the reader's end-of-log error", 0,
+					guardRe("no byte of a next record was read", `^true\(errors\.Is\(`+regexp.QuoteMeta(e)+`, io\.EOF\)\)$`))
+			case regexp.MustCompile(`^dec\.rd\.Read\(.*\)#1$`).MatchString(e):
+				n++
+				c.guards(f, lr.ret, fk+" :: hand back the reader's end-of-log error", 0,
+					guardCmp("no byte of a next record was read", `dec\.rd\.Read\(.*\)#0`, "<=", "0"))
 			}
-			n++
-			c.guards(f, lr.ret, fk+" :: hand back the reader's end-of-log error", 0,
-				guardCmp("no byte of a next record was read", `dec\.rd\.Read\(.*\)#0`, "<=", "0"))
 		}
 		c.Check(n == 1, fk+" :: one clean end-of-log exit", w.pos(f.Pos()), "1", fmt.Sprintf("%d raw-error returns", n))
 		// every other failure the decoder reports itself is a corruption error
@@ -557,7 +569,12 @@ func init() {
 					n++
 					// F25: "the head file is empty" is not enough — right after a rotation the head is empty and the
 					// rotated files hold the log; a second marker 0 hides the first height's records from replay
-					c.guards(f, call, funcKey(f)+" :: write marker 0", 0, guardCmp("the whole log (all files of the group) is empty", `.*\.ReadGroupInfo\(\)\.TotalSize|.*\.readGroupInfo\(\)\.TotalSize`, "==", "0"))
+					// F69: "the whole log" are the head and its rotated files — not whatever else lies next to them
+					// with the same name prefix (the .CORRUPTED copy a repair leaves): an empty head with no rotated
+					// file (MaxIndex() == 0), not a group total size of 0.
+					c.guards(f, call, funcKey(f)+" :: write marker 0", 0,
+						guardCmp("the head is empty", `.*\.Head\.Size\(\)#0`, "==", "0"),
+						guardCmp("there is no rotated file (the head is file 0 of the log)", `.*\.MaxIndex\(\)`, "==", "0"))
 				}
 			}
 			c.Check(n == 1, funcKey(f)+" :: an empty log starts with a marker", w.pos(f.Pos()), "one synced marker write", fmt.Sprintf("%d", n))
@@ -788,5 +805,45 @@ func init() {
 			c.guards(f, call, funcKey(f)+" :: open the WAL file for appending", 0, g)
 		}
 		c.Check(n >= 1, "consensus :: WAL open sites found", "-", ">= 1", fmt.Sprintf("%d", n))
+	})
+}
+
+// ------------------------------------------------------------------ C15.R13
+// F70: the repair rewrites the log from its backup. Done in place (create = truncate the live file, then
+// append record by record) a crash in the middle leaves a short but well-formed log, which no later start can
+// tell from a good one: synced records are lost for good. The repaired log is written to another file,
+// synced, and only then renamed over the log.
+func init() {
+	register("C15", "R13", "K2+K3", "the WAL repair writes the repaired log to a new file, syncs it and renames it over the log (never truncates the log in place)", 3, func(c *Ctx) {
+		w := c.W
+		f := c.fn("consensus", "repairWalFile")
+		if f == nil {
+			return
+		}
+		fk := funcKey(f)
+		dst := paramName(f, 1)
+		nCreate := 0
+		for _, call := range w.callsTo(f, "os#Create", "os#OpenFile") {
+			nCreate++
+			arg := w.expr(callArgs(call)[0])
+			c.Check(arg != dst, fk+" :: the file created for the repaired log is not the log itself", w.ipos(call), "a new file", "creates (truncates) "+arg+", the log that is being repaired: a crash during the rewrite leaves a short log that looks complete")
+		}
+		c.Check(nCreate == 1, fk+" :: output file creation found", w.pos(f.Pos()), "1", fmt.Sprintf("%d", nCreate))
+		nRen := 0
+		for _, call := range w.callsTo(f, "os#Rename") {
+			nRen++
+			c.Check(w.expr(callArgs(call)[1]) == dst, fk+" :: the repaired file is renamed over the log", w.ipos(call), "Rename(tmp, "+dst+")", w.callStr(call))
+			ok, _ := mustPrecede(f, call, func(in ssa.Instruction) bool {
+				cc, isC := in.(*ssa.Call)
+				if !isC {
+					return false
+				}
+				d, okd := describeCallee(cc)
+				return okd && d.Name == "Sync" && d.Pkg == "os"
+			})
+			c.Check(ok, fk+" :: the repaired file is synced before it replaces the log", w.ipos(call), "Sync ≺ Rename", "the rename can happen before the file's contents are on disk")
+			c.guards(f, call, fk+" :: replace the log", 0, guardRe("the sync succeeded", `^nil\(.*\.Sync\(\)\)$`))
+		}
+		c.Check(nRen == 1, fk+" :: rename found", w.pos(f.Pos()), "1", fmt.Sprintf("%d", nRen))
 	})
 }
